@@ -1,5 +1,5 @@
 (* Lexer lemmas for C06 / C13: what Lexer.lex_next returns on laid-out token text. *)
-From JQ Require Import Base.Bytes Syntax.Token Syntax.Lexer Gen.Generated Spec.PrecGrammar.
+From JQ Require Import Base.Bytes Syntax.Token Syntax.Lexer Syntax.Ast Syntax.Parser Gen.Generated Spec.PrecGrammar.
 From Coq Require Import Lia Arith ZifyN ZifyNat ZifyBool.
 Open Scope nat_scope.
 
@@ -105,7 +105,7 @@ Qed.
 
 Definition lex_tok (s : bytes) (pos start0 : nat) : lex_result :=
   match s with
-  | [] => LexTok (simple TEOF start0) (mkLexer [] pos start0)
+  | [] => LexTok (simple TEOF pos) (mkLexer [] pos pos)
   | c :: s' =>
     let l := mkLexer s pos pos in
     if N.eqb c 10 then LexTok (simple TNewline pos) (mkLexer s' (S pos) pos)
@@ -597,7 +597,7 @@ Proof.
 Qed.
 
 Lemma lex_next_eof : forall l, lrest l = [] ->
-  lex_next l = LexTok (simple TEOF (lstart l)) (mkLexer [] (lpos l) (lstart l)).
+  lex_next l = LexTok (simple TEOF (lpos l)) (mkLexer [] (lpos l) (lpos l)).
 Proof. intros l E. rewrite lex_next_unfold. rewrite E. reflexivity. Qed.
 
 (* ---- a whole token list under an arbitrary horizontal layout *)
@@ -630,7 +630,8 @@ Qed.
 
 Lemma lex_next_trail : forall trail pos st,
   forallb is_hws trail = true ->
-  lex_next (mkLexer trail pos st) = LexTok (simple TEOF st) (mkLexer [] (pos + length trail) st).
+  lex_next (mkLexer trail pos st) =
+  LexTok (simple TEOF (pos + length trail)) (mkLexer [] (pos + length trail) (pos + length trail)).
 Proof.
   intros trail pos st H. rewrite lex_next_unfold. cbn [lrest lpos lstart].
   rewrite <- (app_nil_r trail) at 1. rewrite skip_ws_run by auto. reflexivity.
@@ -667,93 +668,6 @@ Proof.
   apply IH. exact Hr.
 Qed.
 
-(* the lexer sits in [src] in front of the tokens [ts], each preceded by a non-empty gap of
-   horizontal white space; trailing white space may follow the last one *)
-Definition LexAt (src : bytes) (l : lexer) (ts : list stoken) : Prop :=
-  (exists pre, src = pre ++ lrest l /\ length pre = lpos l) /\
-  exists items trail, map snd items = ts /\ gaps_ok false items = true /\
-                      forallb is_hws trail = true /\ lrest l = lay items trail.
-
-Lemma tail_text_sep : forall ts, sep_ok (tail_text ts) = true.
-Proof. intros [|k ts]; reflexivity. Qed.
-
-Lemma lex_next_at : forall src l k ts,
-  LexAt src l (k :: ts) -> wf_tok k = true ->
-  exists tok l', lex_next l = LexTok tok l' /\ tok_matches src tok k /\ LexAt src l' ts.
-Proof.
-  intros src l k ts [[pre [Hsrc Hlen]] [items [trail [Hmap [Hg [Ht Hrest]]]]]] Hwf.
-  destruct items as [|[ws k0] r]; [discriminate Hmap|].
-  cbn [map snd] in Hmap. inversion Hmap as [[Ek Er]]. subst k0. clear Hmap.
-  cbn [gaps_ok orb] in Hg. repeat (apply andb_true_iff in Hg; destruct Hg as [Hg ?]).
-  rename H into Hr, H0 into Hk, H1 into Hne, Hg into Hws.
-  cbn [lay] in Hrest.
-  rewrite (lex_next_ws l ws k (lay r trail) Hrest Hws Hwf (lay_sep r trail Hr Ht)).
-  eexists. eexists. split; [reflexivity|]. split.
-  - rewrite Hsrc, Hrest.
-    replace (pre ++ ws ++ spell k ++ lay r trail) with ((pre ++ ws) ++ spell k ++ lay r trail)
-      by (rewrite <- app_assoc; reflexivity).
-    replace (lpos l + length ws) with (length (pre ++ ws)) by (rewrite app_length; unfold byte, bytes in *; lia).
-    apply tok_of_matches.
-  - split.
-    + cbn [lrest lpos]. exists (pre ++ ws ++ spell k). split.
-      * rewrite Hsrc, Hrest. rewrite <- !app_assoc. reflexivity.
-      * rewrite !app_length. unfold byte, bytes in *. lia.
-    + exists r, trail. cbn [lrest]. auto.
-Qed.
-
-Lemma lex_next_at_eof : forall src l,
-  LexAt src l [] ->
-  exists tok l', lex_next l = LexTok tok l' /\ ttag tok = TEOF /\ LexAt src l' [].
-Proof.
-  intros src l [[pre [Hsrc Hlen]] [items [trail [Hmap [Hg [Ht Hrest]]]]]].
-  destruct items as [|[ws k0] r]; [|discriminate Hmap]. cbn [lay] in Hrest.
-  assert (E : lex_next l = LexTok (simple TEOF (lstart l)) (mkLexer [] (lpos l + length trail) (lstart l))).
-  { destruct l as [lr lp ls]. cbn [lrest lpos lstart] in *. subst lr. apply lex_next_trail. exact Ht. }
-  rewrite E. eexists. eexists. split; [reflexivity|]. split; [reflexivity|].
-  split.
-  - cbn [lrest lpos]. exists (pre ++ trail). split.
-    + rewrite Hsrc, Hrest. now rewrite app_nil_r.
-    + rewrite app_length. unfold byte, bytes in *. lia.
-  - exists [], []. cbn [lrest]. auto.
-Qed.
-
-(* the very first token of a text: the gap in front may be empty *)
-Lemma lex_next_first_lay : forall ws k r trail,
-  gaps_ok true ((ws, k) :: r) = true -> forallb is_hws trail = true ->
-  exists tok l', lex_next (new_lexer (lay ((ws, k) :: r) trail)) = LexTok tok l' /\
-    tok_matches (lay ((ws, k) :: r) trail) tok k /\ LexAt (lay ((ws, k) :: r) trail) l' (map snd r).
-Proof.
-  intros ws k r trail Hg Ht.
-  cbn [gaps_ok orb] in Hg. repeat (apply andb_true_iff in Hg; destruct Hg as [Hg ?]).
-  rename H into Hr, H0 into Hk, Hg into Hws.
-  cbn [lay].
-  rewrite (lex_next_ws (new_lexer (ws ++ spell k ++ lay r trail)) ws k (lay r trail) eq_refl Hws Hk
-             (lay_sep r trail Hr Ht)).
-  eexists. eexists. split; [reflexivity|]. split.
-  - cbn [new_lexer lpos]. apply (tok_of_matches ws k (lay r trail)).
-  - split.
-    + cbn [lrest lpos new_lexer]. exists (ws ++ spell k). split.
-      * now rewrite <- app_assoc.
-      * rewrite app_length. unfold byte, bytes in *. lia.
-    + exists r, trail. cbn [lrest]. auto.
-Qed.
-
-Lemma lex_next_first : forall k ts,
-  forallb wf_tok (k :: ts) = true ->
-  exists tok l', lex_next (new_lexer (text_of (k :: ts))) = LexTok tok l' /\
-    tok_matches (text_of (k :: ts)) tok k /\ LexAt (text_of (k :: ts)) l' ts.
-Proof.
-  intros k ts Hwf. rewrite text_of_lay.
-  pose proof (gaps_space_items (k :: ts) Hwf) as Hg. cbn [space_items] in *.
-  destruct (lex_next_first_lay [] k (map (fun k' => ([32%N], k')) ts) [] Hg eq_refl)
-    as [tok [l' [E [Hm Hl]]]].
-  exists tok, l'. split; [exact E|]. split; [exact Hm|].
-  pose proof (snd_space_items (k :: ts)) as Hs. cbn [space_items map snd] in Hs.
-  inversion Hs as [Hs']. rewrite Hs' in Hl. rewrite Hs'. exact Hl.
-Qed.
-
-(* ================================================================= C13 statements *)
-
 Lemma skip_ws_none : forall s pos, ws_stop s = true -> skip_ws s pos = (s, pos).
 Proof.
   intros s pos H. pose proof (skip_ws_run [] s pos eq_refl H) as E. simpl in E.
@@ -778,6 +692,216 @@ Proof.
   intros ws cmt s pos st Hws Hc. rewrite !lex_next_unfold. cbn [lrest lpos lstart].
   rewrite skip_ws_comment by auto. rewrite skip_ws_none by reflexivity. reflexivity.
 Qed.
+
+(* ---- general gaps: horizontal white space, line ends, and '#' comments up to a line end *)
+Inductive is_gap : bytes -> Prop :=
+| gap_ws : forall ws, forallb is_hws ws = true -> is_gap ws
+| gap_nl : forall ws g, forallb is_hws ws = true -> is_gap g -> is_gap (ws ++ 10%N :: g)
+| gap_cmt : forall ws cmt g, forallb is_hws ws = true ->
+    forallb (fun c => negb (N.eqb c 10)) cmt = true -> is_gap g ->
+    is_gap (ws ++ 35%N :: cmt ++ 10%N :: g).
+
+(* every gap is a gap in that sense; only the first may be empty *)
+Fixpoint Gaps (first : bool) (items : list (bytes * stoken)) : Prop :=
+  match items with
+  | [] => True
+  | (g, k) :: r => is_gap g /\ (first = true \/ g <> []) /\ wf_tok k = true /\ Gaps false r
+  end.
+
+Lemma gaps_ok_Gaps : forall items first, gaps_ok first items = true -> Gaps first items.
+Proof.
+  induction items as [|[ws k] r IH]; intros first H; [exact I|].
+  cbn [gaps_ok] in H. repeat (apply andb_true_iff in H; destruct H as [H ?]).
+  cbn [Gaps]. split; [now apply gap_ws|]. split.
+  - destruct first; [now left|right]. simpl in H2. destruct ws; [discriminate|discriminate].
+  - split; [assumption|]. now apply IH.
+Qed.
+
+Lemma gap_head : forall g, is_gap g -> sep_ok g = true.
+Proof.
+  intros g H. destruct H as [ws Hws|ws g Hws Hg|ws cmt g Hws Hc Hg].
+  - destruct ws as [|c ws]; [reflexivity|]. simpl in *. apply andb_true_iff in Hws.
+    destruct Hws as [Hc _]. unfold is_sep. now rewrite Hc.
+  - destruct ws as [|c ws]; [reflexivity|]. simpl in *. apply andb_true_iff in Hws.
+    destruct Hws as [Hc _]. unfold is_sep. now rewrite Hc.
+  - destruct ws as [|c ws]; [reflexivity|]. simpl in *. apply andb_true_iff in Hws.
+    destruct Hws as [Hc' _]. unfold is_sep. now rewrite Hc'.
+Qed.
+
+Lemma lay_sep_G : forall items trail, Gaps false items -> is_gap trail -> sep_ok (lay items trail) = true.
+Proof.
+  intros [|[g k] r] trail H Ht.
+  - simpl. now apply gap_head.
+  - cbn [Gaps] in H. destruct H as [Hg [[Hf|Hne] _]]; [discriminate|].
+    cbn [lay]. pose proof (gap_head g Hg) as S. destruct g as [|c g']; [congruence|]. exact S.
+Qed.
+
+Lemma lex_next_newline : forall s pos st,
+  lex_next (mkLexer (10%N :: s) pos st) = LexTok (simple TNewline pos) (mkLexer s (S pos) pos).
+Proof.
+  intros s pos st. rewrite lex_next_unfold. cbn [lrest lpos lstart].
+  rewrite skip_ws_none by reflexivity. rewrite lex_tok_cons. reflexivity.
+Qed.
+
+Lemma nnn_newline : forall f s pos st saw,
+  next_non_newline (S f) (mkLexer (10%N :: s) pos st) saw =
+  next_non_newline f (mkLexer s (S pos) pos) true.
+Proof. intros. cbn [next_non_newline]. rewrite lex_next_newline. reflexivity. Qed.
+
+Lemma nnn_tok : forall f l tok l' saw,
+  lex_next l = LexTok tok l' -> ttag tok <> TNewline ->
+  next_non_newline (S f) l saw = (LexTok tok l', saw).
+Proof.
+  intros f l tok l' saw H Hn. cbn [next_non_newline]. rewrite H.
+  destruct (ttag tok); try reflexivity. congruence.
+Qed.
+
+Ltac blia := unfold byte, bytes in *; lia.
+
+(* Parser.advance over a gap: line ends are skipped, the token behind the gap is returned *)
+Lemma nnn_gap : forall g, is_gap g ->
+  forall k tl pos st saw fuel, wf_tok k = true -> sep_ok tl = true -> length g < fuel ->
+  exists saw',
+    next_non_newline fuel (mkLexer (g ++ spell k ++ tl) pos st) saw =
+    (LexTok (tok_of k (pos + length g))
+            (mkLexer tl (length (spell k) + (pos + length g)) (start_of k (pos + length g))), saw').
+Proof.
+  intros g H. induction H as [ws Hws|ws g Hws Hg IH|ws cmt g Hws Hc Hg IH];
+    intros k tl pos st saw fuel Hk Htl Hf.
+  - destruct fuel as [|f]; [blia|]. exists saw.
+    apply nnn_tok.
+    + apply (lex_next_ws (mkLexer (ws ++ spell k ++ tl) pos st) ws k tl eq_refl Hws Hk Htl).
+    + intro E. apply (wf_tok_not_newline k Hk). rewrite <- E. destruct k; reflexivity.
+  - destruct fuel as [|f]; [blia|]. rewrite app_length in Hf. cbn [length] in Hf.
+    cbn [next_non_newline]. rewrite <- app_assoc. cbn [app].
+    rewrite lex_next_skip by (auto; reflexivity). rewrite lex_next_newline. cbn [ttag simple].
+    destruct (IH k tl (S (pos + length ws)) (pos + length ws) true f Hk Htl) as [saw' E]; [blia|].
+    exists saw'. unfold byte, bytes in *. rewrite E. rewrite app_length. cbn [length].
+    replace (S (pos + length ws) + length g) with (pos + (length ws + S (length g))) by blia.
+    reflexivity.
+  - destruct fuel as [|f]; [blia|]. rewrite app_length in Hf. cbn [length] in Hf.
+    rewrite app_length in Hf. cbn [length] in Hf.
+    cbn [next_non_newline].
+    rewrite <- app_assoc; cbn [app]; rewrite <- app_assoc; cbn [app].
+    rewrite lex_next_comment by auto. rewrite lex_next_newline. cbn [ttag simple].
+    destruct (IH k tl (S (pos + length ws + 1 + length cmt)) (pos + length ws + 1 + length cmt) true f Hk Htl)
+      as [saw' E]; [blia|].
+    exists saw'. unfold byte, bytes in *. rewrite E. rewrite app_length. cbn [length]. rewrite app_length. cbn [length].
+    replace (S (pos + length ws + 1 + length cmt) + length g)
+      with (pos + (length ws + S (length cmt + S (length g)))) by blia.
+    reflexivity.
+Qed.
+
+Lemma nnn_gap_eof : forall g, is_gap g ->
+  forall pos st saw fuel, length g < fuel ->
+  exists tok st' saw',
+    next_non_newline fuel (mkLexer g pos st) saw = (LexTok tok (mkLexer [] (pos + length g) st'), saw') /\
+    ttag tok = TEOF.
+Proof.
+  intros g H. induction H as [ws Hws|ws g Hws Hg IH|ws cmt g Hws Hc Hg IH];
+    intros pos st saw fuel Hf.
+  - destruct fuel as [|f]; [blia|]. exists (simple TEOF (pos + length ws)), (pos + length ws), saw. split; [|reflexivity].
+    apply nnn_tok; [apply lex_next_trail; exact Hws|discriminate].
+  - destruct fuel as [|f]; [blia|]. rewrite app_length in Hf. cbn [length] in Hf.
+    cbn [next_non_newline].
+    rewrite lex_next_skip by (auto; reflexivity). rewrite lex_next_newline. cbn [ttag simple].
+    destruct (IH (S (pos + length ws)) (pos + length ws) true f) as [tok [st' [saw' [E Ht]]]]; [blia|].
+    exists tok, st', saw'. split; [|exact Ht]. unfold byte, bytes in *. rewrite E. rewrite app_length. cbn [length].
+    replace (S (pos + length ws) + length g) with (pos + (length ws + S (length g))) by blia.
+    reflexivity.
+  - destruct fuel as [|f]; [blia|]. rewrite app_length in Hf. cbn [length] in Hf.
+    rewrite app_length in Hf. cbn [length] in Hf.
+    cbn [next_non_newline].
+    rewrite lex_next_comment by auto. rewrite lex_next_newline. cbn [ttag simple].
+    destruct (IH (S (pos + length ws + 1 + length cmt)) (pos + length ws + 1 + length cmt) true f)
+      as [tok [st' [saw' [E Ht]]]]; [blia|].
+    exists tok, st', saw'. split; [|exact Ht]. unfold byte, bytes in *. rewrite E.
+    rewrite app_length. cbn [length]. rewrite app_length. cbn [length].
+    replace (S (pos + length ws + 1 + length cmt) + length g)
+      with (pos + (length ws + S (length cmt + S (length g)))) by blia.
+    reflexivity.
+Qed.
+
+(* the lexer sits in [src] in front of the tokens [ts], each preceded by a non-empty gap;
+   a trailing gap may follow the last one *)
+Definition LexAt (src : bytes) (l : lexer) (ts : list stoken) : Prop :=
+  (exists pre, src = pre ++ lrest l /\ length pre = lpos l) /\
+  exists items trail, map snd items = ts /\ Gaps false items /\ is_gap trail /\
+                      lrest l = lay items trail.
+
+Lemma tail_text_sep : forall ts, sep_ok (tail_text ts) = true.
+Proof. intros [|k ts]; reflexivity. Qed.
+
+Lemma lay_length_gap : forall g k r trail, length g < S (length (g ++ spell k ++ lay r trail)).
+Proof. intros. rewrite app_length. lia. Qed.
+
+(* what Parser.advance sees *)
+Lemma nnn_at : forall src l k ts,
+  LexAt src l (k :: ts) -> wf_tok k = true ->
+  exists tok l' saw, next_non_newline (S (length (lrest l))) l false = (LexTok tok l', saw) /\
+    tok_matches src tok k /\ LexAt src l' ts.
+Proof.
+  intros src l k ts [[pre [Hsrc Hlen]] [items [trail [Hmap [Hg [Ht Hrest]]]]]] Hwf.
+  destruct items as [|[g k0] r]; [discriminate Hmap|].
+  cbn [map snd] in Hmap. inversion Hmap as [[Ek Er]]. subst k0. clear Hmap.
+  cbn [Gaps] in Hg. destruct Hg as [Hgap [_ [Hk Hr]]].
+  cbn [lay] in Hrest. destruct l as [lr lp ls]. cbn [lrest lpos lstart] in *. subst lr.
+  destruct (nnn_gap g Hgap k (lay r trail) lp ls false (S (length (g ++ spell k ++ lay r trail))) Hwf
+              (lay_sep_G r trail Hr Ht) (lay_length_gap g k r trail)) as [saw E].
+  rewrite E. eexists. eexists. exists saw. split; [reflexivity|]. split.
+  - rewrite Hsrc.
+    replace (pre ++ g ++ spell k ++ lay r trail) with ((pre ++ g) ++ spell k ++ lay r trail)
+      by (rewrite <- app_assoc; reflexivity).
+    replace (lp + length g) with (length (pre ++ g)) by (rewrite app_length; unfold byte, bytes in *; lia).
+    apply tok_of_matches.
+  - split.
+    + cbn [lrest lpos]. exists (pre ++ g ++ spell k). split.
+      * rewrite Hsrc. rewrite <- !app_assoc. reflexivity.
+      * rewrite !app_length. unfold byte, bytes in *. lia.
+    + exists r, trail. cbn [lrest]. auto.
+Qed.
+
+Lemma nnn_at_eof : forall src l,
+  LexAt src l [] ->
+  exists tok l' saw, next_non_newline (S (length (lrest l))) l false = (LexTok tok l', saw) /\
+    ttag tok = TEOF /\ LexAt src l' [].
+Proof.
+  intros src l [[pre [Hsrc Hlen]] [items [trail [Hmap [Hg [Ht Hrest]]]]]].
+  destruct items as [|[ws k0] r]; [|discriminate Hmap]. cbn [lay] in Hrest.
+  destruct l as [lr lp ls]. cbn [lrest lpos lstart] in *. subst lr.
+  destruct (nnn_gap_eof trail Ht lp ls false (S (length trail)) (Nat.lt_succ_diag_r _))
+    as [tok [st' [saw [E Htag]]]].
+  rewrite E. eexists. eexists. exists saw. split; [reflexivity|]. split; [exact Htag|].
+  split.
+  - cbn [lrest lpos]. exists (pre ++ trail). split.
+    + rewrite Hsrc. now rewrite app_nil_r.
+    + rewrite app_length. unfold byte, bytes in *. lia.
+  - exists [], []. cbn [lrest]. repeat split; auto. now apply gap_ws.
+Qed.
+
+(* the very first token of a text: the gap in front may be empty *)
+Lemma nnn_first_lay : forall g k r trail,
+  Gaps true ((g, k) :: r) -> is_gap trail ->
+  exists tok l' saw,
+    next_non_newline (S (length (lay ((g, k) :: r) trail))) (new_lexer (lay ((g, k) :: r) trail)) false =
+      (LexTok tok l', saw) /\
+    tok_matches (lay ((g, k) :: r) trail) tok k /\ LexAt (lay ((g, k) :: r) trail) l' (map snd r).
+Proof.
+  intros g k r trail Hg Ht.
+  cbn [Gaps] in Hg. destruct Hg as [Hgap [_ [Hk Hr]]].
+  cbn [lay]. unfold new_lexer.
+  destruct (nnn_gap g Hgap k (lay r trail) 0 0 false (S (length (g ++ spell k ++ lay r trail))) Hk
+              (lay_sep_G r trail Hr Ht) (lay_length_gap g k r trail)) as [saw E].
+  rewrite E. eexists. eexists. exists saw. split; [reflexivity|]. split.
+  - cbn [Nat.add]. apply (tok_of_matches g k (lay r trail)).
+  - split.
+    + cbn [lrest lpos]. exists (g ++ spell k). split.
+      * now rewrite <- app_assoc.
+      * rewrite app_length. unfold byte, bytes in *. lia.
+    + exists r, trail. cbn [lrest]. auto.
+Qed.
+
+(* ================================================================= C13 statements *)
 
 Lemma digit_ws_stop : forall c s, latin1_is_digit c = true -> ws_stop (c :: s) = true.
 Proof.
@@ -928,7 +1052,7 @@ Lemma lex_all_layout_gen : forall items trail first pre pos st fuel,
 Proof.
   induction items as [|[ws k] r IH]; intros trail first pre pos st fuel Hg Ht Hpre Hf.
   - destruct fuel as [|f]; [simpl in Hf; lia|].
-    exists [], (simple TEOF st). simpl lay. cbn [lex_all_fuel].
+    exists [], (simple TEOF (pos + length trail)). simpl lay. cbn [lex_all_fuel].
     rewrite lex_next_trail by auto. cbn [ttag simple]. repeat split. constructor.
   - destruct fuel as [|f]; [simpl in Hf; lia|]. simpl in Hf.
     cbn [gaps_ok] in Hg. repeat (apply andb_true_iff in Hg; destruct Hg as [Hg ?]).
